@@ -1,5 +1,6 @@
 """
-In-process driver for the real circuits.web HTTP component (C15; no network).
+In-process driver for the real circuits.web HTTP component (C15; no network), and - last part of
+the file - the rig of the end-to-end group (a real circuits.web.Server on a loopback socket).
 
 A BaseComponent "fake server" carries the attributes `HTTP` reads from its server
 (host/port/secure/display_banner) and an `HTTP(self)` child.  An `App` component answers
@@ -8,8 +9,11 @@ A BaseComponent "fake server" carries the attributes `HTTP` reads from its serve
 
 Socket tokens subclass socket.socket (HTTP._on_exception needs isinstance(..., socket)).
 """
+import hashlib
 import io
+import os
 import socket
+import threading
 
 from circuits import BaseComponent, handler
 from circuits.net.events import read
@@ -158,3 +162,196 @@ class Rig:
 
     def clients(self, tok):
         return tok in self.srv.http._clients
+
+
+# ---------------------------------------------------------------------------------------
+# end-to-end rig (C15 e2e tier): a real circuits.web.Server on a loopback socket
+# ---------------------------------------------------------------------------------------
+# Unlike everything above this part does use the network stack: `E2EServer` starts a real
+# `circuits.web.Server` (TCPServer + HTTP + Dispatcher) on 127.0.0.1, port 0, in a background
+# thread; `E2ERoot` is a `Controller` whose exposed methods return the body kinds of the
+# property.  The client side (http.client) lives in c15.py.
+
+_E2E_CACHE = {}
+
+
+def e2e_pattern(n):
+    """n position dependent bytes (numbered 16 byte lines): any re-ordering, loss or duplication
+       of a part of the body changes the content, not only the hash.  The lines end in '##' LF so that
+       body bytes taken for a chunk-size line are rejected at once instead of being waited for."""
+    if n not in _E2E_CACHE:
+        blocks = (n >> 10) + 1
+        data = b''.join(b'%013d##\n' % i * 64 for i in range(blocks))[:n]
+        if len(_E2E_CACHE) > 12:
+            _E2E_CACHE.clear()
+        _E2E_CACHE[n] = data
+    return _E2E_CACHE[n]
+
+
+def e2e_pieces(kind, size, piece):
+    """the parts a body of `kind` and `size` bytes is handed to the framework in
+       (str for kind 'str' and for every second part of the multi-part kinds)"""
+    data = e2e_pattern(size)
+    if kind == 'bytes' or kind == 'file':
+        return [data]
+    if kind == 'str':
+        text = data.decode('ascii')
+        if size >= 5:
+            text = 'é€' + text[5:]      # 2 + 3 bytes in utf-8: the byte size stays `size`
+        return [text]
+    piece = max(1, piece or size or 1)
+    parts = [data[i:i + piece] for i in range(0, size, piece)]
+    return [p.decode('ascii') if k % 2 else p for k, p in enumerate(parts)]
+
+
+def e2e_encode(parts):
+    return b''.join(p.encode('utf-8') if isinstance(p, str) else p for p in parts)
+
+
+def _e2e_controller():
+    from circuits.web import Controller
+
+    class E2ERoot(Controller):
+        """/k<kind>/<size>/<piece>/<status>/<tag> -> a body of that kind, size and partition"""
+
+        def _begin(self, kind, size, piece, status, tag):
+            parts = e2e_pieces(kind, int(size), int(piece))
+            body = e2e_encode(parts)
+            self.produced[tag] = (len(body), hashlib.sha256(body).hexdigest())
+            if int(status) != 200:
+                self.response.status = int(status)
+            self.response.headers['X-Case'] = tag
+            self.response.headers['Content-Type'] = 'application/octet-stream'
+            return parts
+
+        def kbytes(self, size, piece, status, tag):
+            return self._begin('bytes', size, piece, status, tag)[0]
+
+        def kstr(self, size, piece, status, tag):
+            self.response.headers['Content-Type'] = 'text/plain; charset=utf-8'
+            return self._begin('str', size, piece, status, tag)[0]
+
+        def klist(self, size, piece, status, tag):
+            return self._begin('list', size, piece, status, tag)
+
+        def kgen(self, size, piece, status, tag):          # generator result, streaming off
+            parts = self._begin('gen', size, piece, status, tag)
+            self.response.body = (p for p in parts)
+            return self.response
+
+        def ksgen(self, size, piece, status, tag):         # generator result, streaming on
+            parts = self._begin('sgen', size, piece, status, tag)
+            self.response.body = (p for p in parts)
+            self.response.stream = True
+            return self.response
+
+        def kfile(self, size, piece, status, tag):         # file object (streamed in BUFSIZE pieces)
+            return io.BytesIO(self._begin('file', size, piece, status, tag)[0])
+
+    E2ERoot.produced = {}
+    return E2ERoot
+
+
+class _E2EWatch(BaseComponent):
+    """learns the port from the server's `ready` event; records server side exceptions"""
+    channel = 'web'
+
+    def __init__(self):
+        super().__init__()
+        self.ready = threading.Event()
+        self.bind = None
+        self.errors = []
+
+    @handler('ready')
+    def _on_ready(self, server, bind):
+        self.bind = bind
+        self.ready.set()
+
+    @handler('exception', channel='*')
+    def _on_exc(self, etype, evalue, tb, handler=None, fevent=None):
+        if len(self.errors) < 20:
+            self.errors.append(f'{etype.__name__}: {evalue}')
+
+
+class E2EServer:
+    """with E2EServer(sndbuf) as srv: srv.host, srv.port, srv.produced, srv.errors"""
+
+    def __init__(self, sndbuf=65536, timeout=20):
+        import atexit
+        from socket import SO_SNDBUF, SOL_SOCKET
+
+        import circuits.web.servers as servers
+        from circuits.web import Server
+
+        class _Sink:
+            def write(self, s):
+                return len(s)
+
+            def flush(self):
+                pass
+        servers.stderr = _Sink()          # BaseServer._on_ready prints a banner there
+        opts = [(SOL_SOCKET, SO_SNDBUF, sndbuf)] if sndbuf else []
+        self.server = Server(('127.0.0.1', 0), socket_options=opts, display_banner=False)
+        self.root = _e2e_controller()()
+        self.root.produced = {}
+        self.root.register(self.server)
+        self.watch = _E2EWatch().register(self.server)
+        self.thread = None
+        self._atexit = atexit
+        try:
+            self.thread, _ = self.server.start()
+            if not self.watch.ready.wait(timeout):
+                raise RuntimeError('e2e server did not become ready')
+            self.host, self.port = '127.0.0.1', self.watch.bind[1]
+            if not self.port:
+                raise RuntimeError(f'e2e server has no port: {self.watch.bind!r}')
+        except BaseException:
+            self.stop()
+            raise
+
+    @property
+    def produced(self):
+        return self.root.produced
+
+    @property
+    def errors(self):
+        return self.watch.errors
+
+    def stop(self, timeout=20):
+        srv, self.server = self.server, None
+        if srv is None:
+            return True
+        try:
+            srv.stop()
+        finally:
+            t = self.thread
+            if t is not None:
+                t.join(timeout)
+            self._atexit.unregister(srv.stop)      # run() registered it
+            done = t is None or not t.is_alive()
+            tcp = getattr(srv, 'server', None)
+            ls = getattr(tcp, '_sock', None)
+            if ls is not None:                     # normally closed by the `stopped` handler
+                try:
+                    ls.close()
+                except OSError:
+                    pass
+            if done:                               # the poller never closes its wake-up pipe: do it for it
+                poller = getattr(tcp, '_poller', None)
+                for name in ('_ctrl_recv', '_ctrl_send'):
+                    fd = getattr(poller, name, None)
+                    try:
+                        if isinstance(fd, int):
+                            os.close(fd)
+                        elif fd is not None:
+                            fd.close()
+                    except OSError:
+                        pass
+        return done
+
+    def __enter__(self):
+        return self
+
+    def __exit__(self, *a):
+        self.stop()
+        return False
